@@ -4,10 +4,10 @@ package main
 // really serves.
 
 import (
-	"os"
 	"fmt"
 	"go/token"
 	"go/types"
+	"os"
 	"strings"
 
 	"golang.org/x/tools/go/ssa"
@@ -431,6 +431,23 @@ func fingerprintChain(p *Prog, r *Report, ru *Rule, fn *ssa.Function, depth int)
 			}
 		}
 		if nil == call {
+			/* string(arr[:]) with a local [N]byte filled by
+			enc.Encode(arr[:], digest). */
+			if sl, isSl := v.(*ssa.Slice); isSl {
+				if al, isAl := sl.X.(*ssa.Alloc); isAl {
+					eachInstr(fn, func(j ssa.Instruction) {
+						c2, ok := j.(*ssa.Call)
+						if !ok || "(*encoding/base64.Encoding).Encode" != calleeName(c2.Common()) {
+							return
+						}
+						if s2, isSl2 := c2.Common().Args[1].(*ssa.Slice); isSl2 && s2.X == ssa.Value(al) && nil == s2.Low && nil == s2.High {
+							call = c2
+						}
+					})
+				}
+			}
+		}
+		if nil == call {
 			return
 		}
 		nret++
@@ -458,6 +475,21 @@ func fingerprintChain(p *Prog, r *Report, ru *Rule, fn *ssa.Function, depth int)
 			if ms, ok := call.Common().Args[1].(*ssa.MakeSlice); ok {
 				if lc, ok := ms.Len.(*ssa.Call); ok && "(*encoding/base64.Encoding).EncodedLen" == calleeName(lc.Common()) {
 					okLen = true
+				}
+			}
+			/* A whole local array of exactly the 44 bytes a padded
+			base64 SHA-256 digest takes. */
+			if s2, ok := call.Common().Args[1].(*ssa.Slice); ok && nil == s2.Low && nil == s2.High {
+				if al, ok := s2.X.(*ssa.Alloc); ok {
+					if at, ok := al.Type().Underlying().(*types.Pointer).Elem().Underlying().(*types.Array); ok && 44 == at.Len() {
+						if ds, ok := digest.(*ssa.Slice); ok && nil == ds.Low && nil == ds.High {
+							if dal, ok := ds.X.(*ssa.Alloc); ok {
+								if dt, ok := dal.Type().Underlying().(*types.Pointer).Elem().Underlying().(*types.Array); ok && 32 == dt.Len() {
+									okLen = true
+								}
+							}
+						}
+					}
 				}
 			}
 			if !okLen {
@@ -744,8 +776,10 @@ func checkC05Server(p *Prog, r *Report, rSrc, rPins, rPort *Rule) {
 			}
 		})
 	}
-	if n < 2 {
-		rPins.Unproven("one-liners", token.NoPos, "%d printf sites with a pin found, at least 2 expected", n)
+	/* (HEAD has two — the callback help and the file one-liners; a tree
+	which formats the common prefix once and keeps it has one) */
+	if n < 1 {
+		rPins.Unproven("one-liners", token.NoPos, "%d printf sites with a pin found, at least 1 expected", n)
 	}
 	/* TemplateParams.PubkeyFP. */
 	if pf := p.Field(hsrvPkg, "TemplateParams", "PubkeyFP"); nil != pf {
@@ -808,97 +842,100 @@ func checkC05Server(p *Prog, r *Report, rSrc, rPins, rPort *Rule) {
 		return false
 	}
 	nj := 0
-	eachInstr(la, func(i ssa.Instruction) {
-		c, ok := i.(*ssa.Call)
-		if !ok || "net.JoinHostPort" != calleeName(c.Common()) {
-			return
-		}
-		nj++
-		cc := fmt.Sprintf("%s:JoinHostPort#%d", fnName(la), nj)
-		rs := p.rootsUp(valueRoots(c.Common().Args[1], through), through)
-		okk := false
-		for _, rt := range rs {
-			switch {
-			case "call" == rt.Kind && "(net.Listener).Addr" == rt.Callee:
-				okk = true
-			case "const" == rt.Kind && isNumberBase(rt.V):
-				/* the base argument of strconv.FormatUint / FormatInt */
-			default:
-				okk = false
-				rs = append(rs[:0:0], rt)
+	laTop := la
+	for _, la := range withAnons(laTop) {
+		eachInstr(la, func(i ssa.Instruction) {
+			c, ok := i.(*ssa.Call)
+			if !ok || "net.JoinHostPort" != calleeName(c.Common()) {
+				return
 			}
-			if !okk && "const" != rt.Kind {
-				break
-			}
-		}
-		for _, rt := range rs {
-			if !("call" == rt.Kind && "(net.Listener).Addr" == rt.Callee) && !("const" == rt.Kind && isNumberBase(rt.V)) {
-				okk = false
-			}
-		}
-		if okk {
-			rPort.OK(cc, posOf(c), "port derives from s.l.Addr()")
-		} else {
-			rPort.Bad(cc, posOf(c), "the port of a printed one-liner derives from %s, not from the bound socket", rootsString(rs))
-		}
-		/* When joining onto a user-supplied address, the decision that it
-		has no port must come from net.SplitHostPort. */
-		hostThrough := func(n string) bool { return strings.HasPrefix(n, "strings.") }
-		hostRoots := p.rootsUp(valueRoots(c.Common().Args[0], hostThrough), hostThrough)
-		user := false
-		for _, rt := range hostRoots {
-			if "field" == rt.Kind && "cbAddrs" == rt.Field.Name() {
-				user = true
-			}
-		}
-		if user {
-			/* Find net.SplitHostPort(host) and require that the join is
-			reachable from it only over an edge which says "no port" or
-			"not parseable". */
-			host := c.Common().Args[0]
-			var split *ssa.Call
-			eachInstr(la, func(j ssa.Instruction) {
-				if sc, ok := j.(*ssa.Call); ok && "net.SplitHostPort" == calleeName(sc.Common()) && sc.Common().Args[0] == host {
-					split = sc
+			nj++
+			cc := fmt.Sprintf("%s:JoinHostPort#%d", fnName(la), nj)
+			rs := p.rootsUp(valueRoots(c.Common().Args[1], through), through)
+			okk := false
+			for _, rt := range rs {
+				switch {
+				case "call" == rt.Kind && "(net.Listener).Addr" == rt.Callee:
+					okk = true
+				case "const" == rt.Kind && isNumberBase(rt.V):
+					/* the base argument of strconv.FormatUint / FormatInt */
+				default:
+					okk = false
+					rs = append(rs[:0:0], rt)
 				}
-			})
-			if nil == split {
-				rPort.Bad(cc+":user-port-kept", posOf(c), "whether a user-supplied callback address already has a port is not decided by net.SplitHostPort on that address")
+				if !okk && "const" != rt.Kind {
+					break
+				}
+			}
+			for _, rt := range rs {
+				if !("call" == rt.Kind && "(net.Listener).Addr" == rt.Callee) && !("const" == rt.Kind && isNumberBase(rt.V)) {
+					okk = false
+				}
+			}
+			if okk {
+				rPort.OK(cc, posOf(c), "port derives from s.l.Addr()")
 			} else {
-				portV, errV := extractOf(split, 1), extractOf(split, 2)
-				ne := map[Edge]bool{}
-				for _, b := range la.Blocks {
-					ifi := blockIf(b)
-					if nil == ifi {
-						continue
+				rPort.Bad(cc, posOf(c), "the port of a printed one-liner derives from %s, not from the bound socket", rootsString(rs))
+			}
+			/* When joining onto a user-supplied address, the decision that it
+			has no port must come from net.SplitHostPort. */
+			hostThrough := func(n string) bool { return strings.HasPrefix(n, "strings.") }
+			hostRoots := p.rootsUp(valueRoots(c.Common().Args[0], hostThrough), hostThrough)
+			user := false
+			for _, rt := range hostRoots {
+				if "field" == rt.Kind && "cbAddrs" == rt.Field.Name() {
+					user = true
+				}
+			}
+			if user {
+				/* Find net.SplitHostPort(host) and require that the join is
+				reachable from it only over an edge which says "no port" or
+				"not parseable". */
+				host := c.Common().Args[0]
+				var split *ssa.Call
+				eachInstr(la, func(j ssa.Instruction) {
+					if sc, ok := j.(*ssa.Call); ok && "net.SplitHostPort" == calleeName(sc.Common()) && sc.Common().Args[0] == host {
+						split = sc
 					}
-					dc := decodeCond(ifi.Cond)
-					if nil != portV && dc.X == ssa.Value(portV) && nil != dc.Y {
-						if sv, ok := constString(dc.Y); ok && "" == sv {
-							k := 1
+				})
+				if nil == split {
+					rPort.Bad(cc+":user-port-kept", posOf(c), "whether a user-supplied callback address already has a port is not decided by net.SplitHostPort on that address")
+				} else {
+					portV, errV := extractOf(split, 1), extractOf(split, 2)
+					ne := map[Edge]bool{}
+					for _, b := range la.Blocks {
+						ifi := blockIf(b)
+						if nil == ifi {
+							continue
+						}
+						dc := decodeCond(ifi.Cond)
+						if nil != portV && dc.X == ssa.Value(portV) && nil != dc.Y {
+							if sv, ok := constString(dc.Y); ok && "" == sv {
+								k := 1
+								if dc.Eq {
+									k = 0
+								}
+								ne[Edge{b.Index, b.Succs[k].Index}] = true
+							}
+						}
+						if nil != errV && dc.X == ssa.Value(errV) && nil != dc.Y && isNilConst(dc.Y) {
+							k := 0 /* non-nil edge */
 							if dc.Eq {
-								k = 0
+								k = 1
 							}
 							ne[Edge{b.Index, b.Succs[k].Index}] = true
 						}
 					}
-					if nil != errV && dc.X == ssa.Value(errV) && nil != dc.Y && isNilConst(dc.Y) {
-						k := 0 /* non-nil edge */
-						if dc.Eq {
-							k = 1
-						}
-						ne[Edge{b.Index, b.Succs[k].Index}] = true
+					hit := reachQ{From: locOf(split), NoEdges: ne, Target: func(j ssa.Instruction) bool { return j == ssa.Instruction(c) }}.run()
+					if nil == hit && 0 != len(ne) {
+						rPort.OK(cc+":user-port-kept", posOf(c), "the bound port is added only when net.SplitHostPort finds no port (or cannot parse the address)")
+					} else {
+						rPort.Bad(cc+":user-port-kept", posOf(c), "the bound port can be appended to a user-supplied callback address which net.SplitHostPort says already has one")
 					}
 				}
-				hit := reachQ{From: locOf(split), NoEdges: ne, Target: func(j ssa.Instruction) bool { return j == ssa.Instruction(c) }}.run()
-				if nil == hit && 0 != len(ne) {
-					rPort.OK(cc+":user-port-kept", posOf(c), "the bound port is added only when net.SplitHostPort finds no port (or cannot parse the address)")
-				} else {
-					rPort.Bad(cc+":user-port-kept", posOf(c), "the bound port can be appended to a user-supplied callback address which net.SplitHostPort says already has one")
-				}
 			}
-		}
-	})
+		})
+	}
 	if nj < 2 {
 		rPort.Unproven(fnName(la)+":joins", la.Pos(), "%d JoinHostPort calls, at least 2 expected", nj)
 	}
